@@ -401,6 +401,7 @@ func lenClass(n, wbuf int) string {
 // ---- op interpreter (the generators and --replay both go through it) ----
 
 type wtInterp struct {
+	prepared map[string]*webtransport.PreparedMessage
 	w *wconn
 	r *rconn
 }
@@ -421,6 +422,34 @@ func (it *wtInterp) Exec(line string) string {
 			out += " " + fault
 		}
 		return out
+	case "prep": // wt prep <slot> <t|b> <hex>: build a prepared message and keep it for later
+		if it.prepared == nil {
+			it.prepared = map[string]*webtransport.PreparedMessage{}
+		}
+		pm, err := webtransport.NewPreparedMessage(mtOf(t[3]), unhx(t[4]))
+		if err != nil {
+			return "err:" + err.Error()
+		}
+		it.prepared[t[2]] = pm
+		return "ok"
+	case "wprep": // wt wprep <slot>: write a message prepared earlier (others may have been prepared or written since)
+		pm := it.prepared[t[2]]
+		if pm == nil {
+			return "noprep"
+		}
+		before := it.w.s.out.Len()
+		out := ""
+		func() {
+			defer func() {
+				if p := recover(); p != nil {
+					out = fmt.Sprint(" panic:", p)
+				}
+			}()
+			if err := it.w.c.WritePreparedMessage(pm); err != nil {
+				out = " err:" + err.Error()
+			}
+		}()
+		return "wire " + hx(append([]byte(nil), it.w.s.out.Bytes()[before:]...)) + out
 	case "rnew":
 		if it.r != nil {
 			it.r.done()
@@ -541,6 +570,34 @@ func famWTWrite(t *testing.T, r *Rec) {
 							// the same fact read as C01: a conformant WebTransport client does not receive this message intact
 							r.Violate("C01", sigf("C01/webtransport/wire/%s/srv=%s/%s", api, b01(server), lenClass(n, wbuf)),
 								fmt.Sprintf("a %d-byte message written to a WebTransport connection is not one Engine.IO frame on the wire: %.80s", n, out), replay)
+						}
+					}
+					// prepared messages that wait while others are prepared and written (quick: one scenario in three)
+					if r.rng.IntN(3) == 0 || r.thorough() {
+						type pm struct {
+							kind string
+							data []byte
+						}
+						var pend []pm
+						for i := 0; i < 2+r.rng.IntN(2); i++ {
+							n := []int{0, 3, 10, 125, 126, 300, 4096, 4097}[r.rng.IntN(8)]
+							m := pm{[]string{"t", "b"}[r.rng.IntN(2)], payload(r.rng, n)}
+							pend = append(pend, m)
+							do(fmt.Sprintf("wt prep %d %s %s", i, m.kind, hx(m.data)))
+						}
+						if r.rng.IntN(2) == 0 {
+							d := payload(r.rng, 7)
+							do(fmt.Sprintf("wt w msg b %s -", hx(d)))
+							sent = append(sent, rmsg{"b", d})
+						}
+						for i, m := range pend {
+							out := do(fmt.Sprintf("wt wprep %d", i))
+							sent = append(sent, rmsg{m.kind, m.data})
+							r.Cover(fmt.Sprintf("prepared-later/%s/srv=%s/%s", m.kind, b01(server), lenClass(len(m.data), wbuf)))
+							if want := "wire " + hx(specEncode(m.kind, m.data, formMin)); out != want {
+								r.Violate("C14", sigf("C14/encoder/prepared-later/srv=%s/%s", b01(server), lenClass(len(m.data), wbuf)),
+									fmt.Sprintf("a prepared %d-byte message written after other messages were prepared is not its own frame on the wire: %.80s", len(m.data), out), replay)
+							}
 						}
 					}
 					// C13 monitor: the peer reads exactly the messages written
